@@ -48,6 +48,11 @@ def gen_data(rng, tier, latent=False):
         else:
             base = sorted(gen.state_labels(rng, card[v], "str"))
         labels.append(base)
+    declared_perm = rng.random() < .35
+    if declared_perm:
+        # declared state order need not be the sorted one: estimates must be aligned to the DECLARED order
+        for v in range(n):
+            rng.shuffle(labels[v])
     nrows = rng.randint(5, 40)
     # sparse: some states / parent configurations never occur
     allowed = [rng.sample(range(card[v]), rng.randint(1, card[v])) if rng.random() < .4 else list(range(card[v])) for v in range(n)]
@@ -56,7 +61,8 @@ def gen_data(rng, tier, latent=False):
     if rng.random() < .25:
         weights = [rs(Fraction(rng.randint(1, 6), 2)) for _ in range(nrows)]
     return {"cols": cols, "card": card, "labels": labels, "edges": edges, "rows": rows, "weights": weights, "dtype": dtype,
-            "pass_state_names": True if any(len(set(r[v] for r in rows)) < card[v] for v in range(n)) else rng.random() < .5,
+            "pass_state_names": True if declared_perm or any(len(set(r[v] for r in rows)) < card[v] for v in range(n)) else rng.random() < .5,
+            "declared_perm": declared_perm,
             "n_jobs": rng.choice([1, 1, 2])}
 
 
@@ -143,7 +149,8 @@ def labels_for_compare(case, labels):
 # ----------------------------------------------------------------------------- MLE / Bayes
 def gen_est(rng, tier):
     case = gen_data(rng, tier)
-    case["est"] = rng.choice(["mle", "mle", "k2", "bdeu", "dirichlet", "fit_mle", "fit_bayes", "dagfit"])
+    case["est"] = rng.choice(["mle", "mle", "k2", "bdeu", "dirichlet", "dirichlet_scalar", "fit_mle", "fit_bayes", "dagfit"])
+    case["scalar"] = rs(rng.choice([Fraction(1, 2), Fraction(3, 2), Fraction(2), Fraction(9, 4), Fraction(1, 10)]))
     case["ess"] = rs(rng.choice([Fraction(1), Fraction(5), Fraction(10), Fraction(5, 2)]))
     case["pseudo_seed"] = rng.randrange(10 ** 6)
     if case["est"] in ("dagfit",):
@@ -161,12 +168,25 @@ def run_est(case, drv):
     df = make_df(case)
     est = case["est"]
     weighted = bool(case["weights"])
-    tags = dict(est=est, dtype=case["dtype"], weighted=weighted, declared=case["pass_state_names"], n_jobs=case["n_jobs"])
+    tags = dict(est=est, dtype=case["dtype"], weighted=weighted, declared=case["pass_state_names"], n_jobs=case["n_jobs"],
+                declared_perm=bool(case.get("declared_perm")))
     kw = {}
     try:
         if est == "mle":
             cpds = MaximumLikelihoodEstimator(build_model(case), df, **sn_arg(case)).get_parameters(n_jobs=case["n_jobs"], weighted=weighted)
             kind = "mle"
+        elif est == "dirichlet_scalar":
+            # one scalar pseudo-count for every cell (possibly fractional)
+            be = BayesianEstimator(build_model(case), df, **sn_arg(case))
+            cpds = be.get_parameters(prior_type="dirichlet", pseudo_counts=float(Fraction(case["scalar"])), n_jobs=case["n_jobs"], weighted=weighted)
+            pcm = {}
+            for v in range(len(names)):
+                ps = parents_of(case, v)
+                q = 1
+                for p in ps:
+                    q *= card[p]
+                pcm[v] = {"scope": [v] + ps, "card": [card[x] for x in [v] + ps], "vals": [case["scalar"]] * (q * card[v])}
+            kind = "dirichlet"
         elif est in ("k2", "bdeu", "dirichlet"):
             be = BayesianEstimator(build_model(case), df, **sn_arg(case))
             if est == "k2":
